@@ -604,6 +604,10 @@ func hasTopLevelNull(tk token.Token) bool {
 }
 
 func (w *worldExec) delegate(s *DlgSpec) {
+	s.Iss, s.Aud, s.Sub = w.cast.canon(s.Iss), w.cast.canon(s.Aud), w.cast.canon(s.Sub)
+	if s.Iss < 0 || s.Iss >= lookAlike {
+		s.Iss = 0 // an issuer is always a cast member holding a key
+	}
 	o := w.o
 	var tk *delegation.Token
 	var err error
@@ -645,6 +649,10 @@ func (w *worldExec) delegate(s *DlgSpec) {
 }
 
 func (w *worldExec) invoke(s *InvSpec) {
+	s.Iss, s.Aud, s.Sub = w.cast.canon(s.Iss), w.cast.canon(s.Aud), w.cast.canon(s.Sub)
+	if s.Iss < 0 || s.Iss >= lookAlike {
+		s.Iss = 0 // an issuer is always a cast member holding a key
+	}
 	o := w.o
 	prf := make([]cid.Cid, len(s.Prf))
 	for i, l := range s.Prf {
